@@ -255,6 +255,9 @@ type ruleEvent struct {
 // checkRendered cross-checks the renderer: what the real parser understood must
 // agree with the abstract rule on everything the exported accessors show.
 func checkRendered(a *aRule, r *rules.NetworkRule) error {
+	if r.IsRegexRule() {
+		return fmt.Errorf("the rendered pattern is a regular expression by syntax, the abstract rule is a mask")
+	}
 	if r.Whitelist != a.White {
 		return fmt.Errorf("whitelist flag")
 	}
@@ -300,6 +303,12 @@ func cmdDriveRule(args []string) error {
 			rule, perr := rules.NewNetworkRule(text, 1)
 			if perr != nil {
 				// too wide / two-character patterns etc.: not part of the contract, count and go on
+				rejected++
+				continue
+			}
+			if rule.IsRegexRule() {
+				// a pattern that starts and ends with '/' is a regular expression by syntax, not a mask: the abstract
+				// rule (mask semantics) would misrepresent it - outside this check's vocabulary, count and go on
 				rejected++
 				continue
 			}
